@@ -486,3 +486,102 @@ def g12(ctx: Ctx):
                         file="coco/b09/parser.py",
                         line=getattr(x, "line", 1) or 1,
                     )
+
+
+# ---------------------------------------------------------------------------
+# G13 LINE-ENDS
+
+
+@rule("G13", "LINE-ENDS: the line-separator terminal accepts LF, CR and CRLF alike, and no other terminal can swallow a line-end character as content (decided on the terminals' regular languages)", ["C08"], floor=8)
+def g13(ctx: Ctx):
+    from .peg import GRAMMAR_REL, peg
+
+    P = peg(ctx)
+    regexes = [(name, e) for name, e in P.rules.items() if P.kind(e) == "regex"]
+    langs = {}
+    for name, e in regexes:
+        try:
+            langs[name] = Lang.from_regex(e.re.pattern, e.re.flags)
+        except Exception as ex:
+            raise AnalysisError("G13", name, f"pattern {e.re.pattern!r} not analysable: {ex}")
+    # the separator: a terminal whose whole language consists of line-end characters (by language, not by name)
+    only_eol = Lang.from_regex(r"[\r\n]+")
+    seps = [name for name, L_ in langs.items() if not L_.is_empty() and L_.included_in(only_eol)[0] and not L_.accepts("")]
+    ctx.need(len(seps) >= 1, "grammar", "no terminal whose language is made of line-end characters found")
+    for name in seps:
+        pat = P.rules[name].re.pattern
+        plus = Lang.from_regex(f"(?:{pat})+", P.rules[name].re.flags)
+        for spelled, txt in (("LF", "\n"), ("CR", "\r"), ("CRLF", "\r\n")):
+            ok = plus.accepts(txt)
+            ctx.ob(f"{name}:{spelled}", ok, "" if ok else f"terminal `{name}` = {pat!r} does not match a {spelled} line end: the same program with {spelled} line ends is refused while its other spellings convert", file=GRAMMAR_REL, line=P.line(name), witness="" if ok else "10 A=1" + txt + "20 B=2")
+    # every other terminal stops at a line end: a CR or LF inside its match would make the output depend on the line-end convention
+    with_eol = Lang.from_regex(r"(?s).*[\r\n].*")
+    for name, L_ in sorted(langs.items()):
+        if name in seps:
+            continue
+        inter = L_.intersect(with_eol)
+        ok = inter.is_empty()
+        w = None if ok else inter.witness()
+        ctx.ob(f"{name}:stops-at-line-end", ok, "" if ok else f"terminal `{name}` = {P.rules[name].re.pattern!r} can match {w!r}: with CR or CRLF line ends the line end (and what follows) becomes part of the token, so the output differs from the LF spelling", file=GRAMMAR_REL, line=P.line(name), witness="" if ok else "10 REM X\r20 A=1\r")
+
+
+# ---------------------------------------------------------------------------
+# G14 CONTENT-VERBATIM
+
+
+@rule("G14", "CONTENT-VERBATIM: the text of a content terminal (comment, string literal, DATA item: blanks are content there) reaches its construct without strip / replace / case operations", ["C08", "C03", "C13"], floor=2, default_props=["C08"])
+def g14(ctx: Ctx):
+    I = interp(ctx)
+    vals = rule_values(ctx)
+    content: Dict[str, bool] = {}
+
+    def is_content(node) -> bool:
+        if node is None or I.peg.kind(node.expr) != "regex":
+            return False
+        pat = node.expr.re.pattern
+        if pat not in content:
+            try:
+                L_ = Lang.from_regex(pat, node.expr.re.flags)
+                content[pat] = any(L_.accepts(w) for w in ("G G", '"G G"', '"G G'))
+            except Exception:
+                content[pat] = False
+        return content[pat]
+
+    def chain(y, depth=0):
+        """(operations applied, innermost value) of a derived string."""
+        ops = []
+        cur = y
+        while depth < 8:
+            depth += 1
+            if hasattr(cur, "op"):
+                ops.append(cur.op[0])
+                cur = cur.op[1]
+            elif hasattr(cur, "slice_of"):
+                cur = cur.slice_of[0]
+            else:
+                break
+        return ops, cur
+
+    seen: Set[str] = set()
+    n = 0
+    for r, v in sorted(vals.items()):
+        for x, where in walk(v):
+            if not isinstance(x, Obj):
+                continue
+            for f, fv in x.fields.items():
+                for y in alts_of(fv):
+                    if not isinstance(y, StrV):
+                        continue
+                    ops, base = chain(y)
+                    node = getattr(base, "node", None) or getattr(y, "node", None)
+                    if not is_content(node):
+                        continue
+                    meth = _func_at(pyfacts(ctx).modules[PARSER_REL], getattr(x, "line", 0) or 0).split(".")[-1]
+                    key = f"{meth}:{x.cls}.{f}<-{node.desc}"
+                    if key in seen:
+                        continue
+                    seen.add(key)
+                    n += 1
+                    bad = [o for o in ops if o in ("strip", "lstrip", "rstrip", "replace", "lower", "upper", "title", "capitalize", "swapcase", "expandtabs")]
+                    ctx.ob(key, not bad, "" if not bad else f"`{meth}` stores the text of `{node.desc}` after {['.' + o + '()' for o in bad]}: blanks (or letters) that are content of the comment / string / DATA item are changed, and two sources that differ in content convert to the same output", file=PARSER_REL, line=getattr(x, "line", 1) or 1)
+    ctx.need(n >= 1, "content terminals", "no construct that stores the text of a comment / string / DATA terminal found")
